@@ -460,3 +460,12 @@ Proof.
     rewrite pjoin_plain; auto. rewrite IH; auto using root_ok_snoc.
     rewrite <- app_assoc; auto.
 Qed.
+
+(* ------------------------------------------------------------------------ *)
+(** * --hashws (modelling note of OrderFree.v): a digest of the combination
+    string gives root-independent components; the absolute workspace is
+    relocated like every other one.  (A digest of anything that mentions the
+    root would not be of this form.) *)
+Theorem hashed_ws_relocatable san h r r' x combo :
+  dir_reloc r r' (hashed_ws san h r x combo) (hashed_ws san h r' x combo).
+Proof. exists (map san (hashed_comps h x combo)); split; reflexivity. Qed.
